@@ -363,7 +363,10 @@ type driver struct {
 	storageInit   bool
 	trusted       uint32 // height of the configured TrustedHeader (0: none)
 	kF1, kF2, kF3 bool   // listed known findings (see register.go)
-	stats         struct {
+	// pointSaved: the chosen sync point has reached the database (a flush happened since the first Init). Before
+	// that a crash legitimately makes the node choose again, so the peer must not leave P's interval yet.
+	pointSaved bool
+	stats      struct {
 		restartsMPT, crashesMPT, wrong, restarts, crashes, flushes, mptCalls, hdrCalls, blkCalls int
 		restartStage                                                                             map[string]int
 	}
@@ -461,13 +464,14 @@ func (d *driver) run() error {
 		before := d.stage()
 		switch st.Kind {
 		case "grow":
-			d.peerH = min(d.peerH+uint32(st.A), d.capH)
+			d.peerH = min(d.peerH+uint32(st.A), d.growCap())
 			continue
 		case "flush":
 			if err := d.n.bc.VerifPersist(); err != nil {
 				return fmt.Errorf("persist: %v", err)
 			}
 			d.stats.flushes++
+			d.pointSaved = true
 			continue
 		case "restart", "crash":
 			kind := st.Kind
@@ -489,6 +493,7 @@ func (d *driver) run() error {
 					return fmt.Errorf("restart in stage %s: node does not start: %v", before, err)
 				}
 				d.stats.restarts++
+				d.pointSaved = true
 			} else {
 				t, err := d.n.crashCopy(d.n.rec.Count())
 				if err != nil {
@@ -555,6 +560,15 @@ func (d *driver) run() error {
 	return nil
 }
 
+// growCap bounds the peer's height: within P's interval until the sync point is saved, below P+2*interval afterwards
+// (a later Init then keeps the saved point; beyond that the module asks for a database drop by documentation).
+func (d *driver) growCap() uint32 {
+	if d.pointSaved {
+		return d.capH
+	}
+	return min(d.capH, d.src.P+uint32(d.c.Chain.StateSyncInterval)-1)
+}
+
 func clipS(s string) string {
 	if len(s) > 300 {
 		return s[:300] + "..."
@@ -567,7 +581,7 @@ func (d *driver) feedHeaders(st Step) error {
 	hh := bc.HeaderHeight()
 	if hh >= d.peerH {
 		// the server requests headers only from a higher peer; the peer eventually grows
-		d.peerH = min(d.peerH+1, d.capH)
+		d.peerH = min(d.peerH+1, d.growCap())
 		if hh >= d.peerH {
 			return fmt.Errorf("harness: peer cannot grow beyond %d while headers are needed (header height %d, P %d)", d.capH, hh, d.src.P)
 		}
@@ -616,6 +630,9 @@ func (d *driver) feedHeaders(st Step) error {
 	}
 	if to == d.src.P {
 		d.o.Label("headers-chunk-ends-at-P")
+	}
+	if nh > d.src.P {
+		d.pointSaved = true // AddHeaders persists synchronously when the headers stage ends
 	}
 	if need := d.mod.NeedHeaders(); need != (nh <= d.src.P) {
 		return fmt.Errorf("header height %d, sync point %d, but NeedHeaders() = %v", nh, d.src.P, need)
@@ -1115,6 +1132,17 @@ func checkSCase(c SCase, o *vt.Obs) error {
 	}
 	if diff := ck.Diff(src.dumpT, ck.FullDump(d.n.bc, nil)); diff != "" {
 		return fmt.Errorf("final state at height %d differs from the source (source vs synced): %s", total, diff)
+	}
+	// Exactly one of the two contract storage prefixes may be populated once the jump is over and flushed (the old
+	// state must not linger under the spare prefix).
+	if d.n.rec != nil {
+		cnt := [2]int{}
+		for i, pfx := range []storage.KeyPrefix{storage.STStorage, storage.STTempStorage} {
+			d.n.rec.Store.Seek(storage.SeekRange{Prefix: []byte{byte(pfx)}}, func(_, _ []byte) bool { cnt[i]++; return true })
+		}
+		if cnt[0] != 0 && cnt[1] != 0 {
+			return fmt.Errorf("after the state jump both storage prefixes are populated in the database (%d items under STStorage, %d under STTempStorage): stale state was left behind", cnt[0], cnt[1])
+		}
 	}
 	want, err := nodeMultiset(b.N.BC, src.root(total))
 	if err != nil {
